@@ -14,6 +14,8 @@ VERIF="$(cd "$(dirname "$0")/.." && pwd)"
 export GOFLAGS=-mod=mod GOPROXY=off GOSUMDB=off GOTOOLCHAIN=local
 GO=go1.26.8
 command -v $GO >/dev/null 2>&1 || GO=/opt/veriftools/go1.26.8/bin/go
+# go/packages runs the `go` found on PATH: make that go1.26.8
+export PATH="/opt/veriftools/go1.26.8/bin:$PATH"
 mkdir -p "$WORK/ovl"
 ENTRIES="$WORK/overlay.entries"
 : > "$ENTRIES"
@@ -31,7 +33,11 @@ if [ -d "$VERIF/tools/instrument" ]; then
   INS="$VERIF/build/bin/instrument"
   mkdir -p "$VERIF/build/bin"
   (cd "$VERIF/tools/instrument" && $GO build -o "$INS" .)
-  "$INS" -repo "$REPO" -work "$WORK" -modfile "$WORK/go.mod" -harness "$VERIF/harness" >> "$ENTRIES"
+  # packages are loaded with the pristine bbolt from the module cache (no
+  # replace), the rewritten copy is what the build then uses
+  sed "s#=> /repo#=> $REPO#" "$VERIF/harness/go.mod" > "$WORK/load.mod"
+  cp "$VERIF/harness/go.sum" "$WORK/load.sum"
+  "$INS" -repo "$REPO" -work "$WORK" -modfile "$WORK/load.mod" -harness "$VERIF/harness" >> "$ENTRIES"
 fi
 python3 - "$ENTRIES" "$WORK/overlay.json" <<'PY'
 import json,sys
